@@ -130,10 +130,23 @@ func hashStr(s string) uint32 {
 // top element is known; Tag is an opaque pairing tag supplied by the product
 // exploration (the reference's stack symbol pushed at the same step).
 type absStack struct {
+	Prev    string // what the top was when this frame was pushed ("" unknown, "[]" empty, else prevKey of that frame)
+	Saved   byte // kind of the build-stack top when this frame was opened ('K' key, 'M' map, 'O' other, 0 unknown)
 	Unknown bool // nothing is known (not even emptiness)
 	Empty bool
 	Top   Val
 	Tag   int
+}
+
+// prevKey identifies a frame as the thing a later push covers.
+func (s absStack) prevKey() string {
+	switch {
+	case s.Unknown:
+		return ""
+	case s.Empty:
+		return "[]"
+	}
+	return fmt.Sprintf("%s/%d#%d", s.Top.String(), s.Saved, s.Tag)
 }
 
 func (s absStack) String() string {
@@ -143,7 +156,14 @@ func (s absStack) String() string {
 	if s.Empty {
 		return "[]"
 	}
-	return "[.." + s.Top.String() + "]"
+	pv := ""
+	if s.Prev != "" {
+		pv = "<" + s.Prev
+	}
+	if s.Saved != 0 {
+		return "[.." + s.Top.String() + "/" + string(s.Saved) + pv + "]"
+	}
+	return "[.." + s.Top.String() + pv + "]"
 }
 
 // State is the abstract machine state threaded through statements.
@@ -167,6 +187,8 @@ type State struct {
 	errPos   string
 	readStale []string
 	panicked string // a runtime panic was reached while evaluating an expression
+	bs       byte // kind of the top of the build stack: 'K' a pending key, 'M' the object being filled, 'O' anything else, 0 unknown
+	pendingRestore byte // Saved kind of the container frame popped in this arm
 	assigned map[string]bool // receiver fields assigned in this arm
 	garbage  map[string]bool // scratch buffers whose content was consumed (or is left over) and not truncated since
 }
@@ -261,6 +283,9 @@ func (s *State) ctrlKey(localNames map[any]string) string {
 	}
 	for k := range s.garbage {
 		parts = append(parts, "g."+k)
+	}
+	if s.bs != 0 {
+		parts = append(parts, "bs="+string(s.bs))
 	}
 	sort.Strings(parts)
 	return strings.Join(parts, " ")
